@@ -207,8 +207,6 @@ def main(tier):
                 mo = re.match(r"(ok .*?) d=(\S+) (idem=\S+) (m=\S+ r=\S+) ops=(\d+) (seed=\S+)$", o)
                 if mo:
                     det = unhx(mo.group(2)).decode("utf-8", "replace") + " " + mo.group(3)
-                    if "{" in mo.group(1):
-                        det = "{"          # a dict is printed: Go map order is random (text and even idempotence vary)
                     return (mo.group(1), mo.group(4), mo.group(6)), det, int(mo.group(5))
                 mo = re.match(r"(err \S+) ops=(\d+)$", o)
                 if mo:
@@ -220,8 +218,6 @@ def main(tier):
             for xa, xb in zip(pa, pb):
                 c1, d1, o1 = split(xa)
                 c2, d2, o2 = split(xb)
-                if "{" in d1 or "{" in d2:
-                    d1 = d2 = ""        # printed dicts: Go map order is random, never compare their text
                 ca += c1; cb += c2; da += "|" + d1; db += "|" + d2; oa += o1; ob += o2
             if len(pa) != len(pb):
                 ca = ("len",)
